@@ -122,7 +122,10 @@ func FileUtilsRead(file *os.File, offset int64) (*RecordHead, *RecordBody, error
 	}
 
 	heaBuf := make([]byte, RecordHeadLength)
-	_, err = file.Read(heaBuf)
+	_, err = io.ReadFull(file, heaBuf)
+	if err == io.ErrUnexpectedEOF {
+		return nil, nil, io.EOF // torn record head: the write never completed
+	}
 	if err != nil {
 		return nil, nil, err
 	}
@@ -138,7 +141,10 @@ func FileUtilsRead(file *os.File, offset int64) (*RecordHead, *RecordBody, error
 	}
 
 	bodyBuf := make([]byte, head.Len)
-	_, err = file.Read(bodyBuf)
+	_, err = io.ReadFull(file, bodyBuf)
+	if err == io.ErrUnexpectedEOF || (err == nil && CheckSum(bodyBuf) != head.Crc) {
+		return nil, nil, io.EOF // torn record body: the write never completed
+	}
 	if err != nil {
 		return nil, nil, err
 	}
